@@ -126,7 +126,18 @@ def run_patterns(ctx, env):
     ctx.replay_behaviours(binary, bc, args=["ignore"], wrap=lambda c: c, fingerprint=fp, critical=crit)
 
 
-PHASES = [run_patterns]
+def run_repository(ctx, env):
+    """Repository-level half (builder bJ): spec/RepoIgnore.tla (INSTANCEs IgnorePatterns.tla), engine harness/repo2 mode ignore:
+    dolt_add('.') / dolt_commit('-A') / dolt_reset() / dolt_clean() / dolt_clean('-x') over working sets mixing new, dropped,
+    modified and renamed tables; see checks/_bj.py run_c46_repo."""
+    _s = importlib.util.spec_from_file_location("_bj", os.path.join(os.path.dirname(__file__), "_bj.py"))
+    bj = importlib.util.module_from_spec(_s)
+    _s.loader.exec_module(bj)
+    bj.run_c46_repo(ctx)
+    env["repo_rule"] = ctx.cov.get("rule", "")
+
+
+PHASES = [run_patterns, run_repository]
 
 
 def run(ctx):
@@ -134,7 +145,9 @@ def run(ctx):
     if ctx.replay:
         rp = bn.load_replay(ctx.replay)
         case = rp["case"]
-        if case.get("mode") == "ignore":
+        if case.get("phase") == "repo":
+            run_repository(ctx, env)
+        elif case.get("mode") == "ignore":
             binary = ctx.build_engine("policy")
             res = ctx.run_engine(binary, ["ignore"], [case], shards=1)[0]
             print(json.dumps(res, indent=1)[:6000])
@@ -149,4 +162,4 @@ def run(ctx):
         "pattern half: one case = a block of dolt_ignore tables (TLC states of the exhaustive enumeration) or one behaviour; every table is "
         "evaluated for every table name of the bound through IgnorePatterns.IsTableNameIgnored (three slice orders) and compared with Result; "
         "evaluations = individual verdict comparisons; non-trivial = a block/behaviour containing a (table, name) pair that matches patterns of "
-        "both signs or is a conflict; distinct by case key")
+        "both signs or is a conflict; distinct by case key" + ("; " + env["repo_rule"] if env.get("repo_rule") else ""))
